@@ -309,7 +309,7 @@ class Supercell(PhonopyAtoms):
             masses=masses_multi,
             magnetic_moments=magmoms_multi,
             scaled_positions=positions_multi,
-            cell=np.dot(mat, lattice),
+            cell=np.dot(mat.T, lattice),
         )
 
         return simple_supercell, atom_map
